@@ -264,6 +264,25 @@ def exactfit_cases(ctx, opts, tag):
                 i += 1
     return out
 
+def prodos_tree_stream(ctx):
+    """ProDOS file structure: chunk sets at every storage-type boundary and sparse ones, stored on a fresh volume; storage type, key
+    pointer, block count, master table and every (chunk, block) pair read raw from the image must equal Fs/ProdosTree.v"""
+    rng = ctx.rng
+    quick = ctx.tier == 'quick'
+    sets = ['0', '1', '0-1', '0,2', '255', '0-255', '254-255', '256', '0,256', '0-256', '255-256', '257', '1,257', '511', '512', '0,511-513', '39', '300',
+            '0,255,256,600,1300', '767-769', '1023-1025', '32767', '0,32767', '256,32767', '32768', '40000', '0-300', '0-600']
+    for _ in range(12 if quick else 200):
+        n = rng.choice([1, 2, 3, 8, 30])
+        top = rng.choice([2, 256, 257, 600, 1300, 5000, 32768])
+        cs = sorted({rng.choice([rng.randrange(top), rng.choice([0, 1, 255, 256, 257, 511, 512, 513]) % top]) for _ in range(n)})
+        sets.append(','.join(str(c) for c in cs))
+    lines = [f"pdtree pt{i} po:3.5in-ds {s}" for i, s in enumerate(sets)]
+    lines += [f"pdtree pu{i} po:5.25in {s}" for i, s in enumerate(sets[:20])]
+    canon = lambda toks, text: None if text is None else ('refused' if text.startswith('refused') else text)
+    fw.correspond(ctx, 'prodos-structure (storage type, key, block count, master and index tables after put on a fresh volume vs Fs/ProdosTree.v)', lines, canon=canon,
+                  trivial=lambda toks, out: out is None or out.startswith('refused'))
+
+
 def standard_run(ctx, pid, opts='r', lock_heavy=False, also=(), model_ok=True, n_oracle=None, n_corr=None):
     ctx.also_props = tuple(also)
     quick = ctx.tier == 'quick'
@@ -278,6 +297,8 @@ def standard_run(ctx, pid, opts='r', lock_heavy=False, also=(), model_ok=True, n
         corr += subdir_cases(ctx, '-', 'ms')
         corr += [' '.join(c.split(' ')[:4] + ['-'] + c.split(' ')[5:]).replace(' k', ' mk', 1) for c in corpus_cases(pid) if c.split()[2] != 'cpm3']
         run_correspondence(ctx, corr)
+        if pid in ('C01', 'C03'):
+            prodos_tree_stream(ctx)
     oracle = corpus_cases(pid) + collide_cases(ctx, opts, 'oc') + bigfile_cases(ctx, opts, 'ob') + subdir_cases(ctx, opts, 'os') + (lockbig_cases(ctx, opts, 'ol') if lock_heavy else []) + dirfill_cases(ctx, opts, 'od') + slotfill_cases(ctx, opts, 'of') + exactfit_cases(ctx, opts, 'oe') + gen_cases(ctx, ALL_FS, n_o, opts, False, lock_heavy=lock_heavy, tag='o')
     out = run_oracle(ctx, pid, oracle, also=also)
     ctx.samples += [oracle[-1][:300] + ' -> ' + (out.get(oracle[-1].split()[1]) or '')[:300]]
